@@ -3,7 +3,7 @@
 import json, subprocess
 
 PROPS = {
- "C01": ("differential: generated formula texts vs an independent reference lexer/parser/truth-table semantics (proptest byte tapes, shrinking) + sampled CLI runs + wide texts (padded formulas over 60..600 names, counter-reachability fixed points with up to 2^11 applications, counting over 14..23 literals) vs the same reference semantics evaluated on the harness's own reference ROBDD package",
+ "C01": ("differential: generated formula texts vs an independent reference lexer/parser/truth-table semantics (proptest byte tapes, shrinking) + sampled CLI runs + wide texts (padded formulas over 60..600 names, counter-reachability fixed points with up to 2^11 applications, counting over 14..22 literals) vs the same reference semantics evaluated on the harness's own reference ROBDD package",
          "Exploration by generated formula texts over the whole language against an independent truth-table semantics written from the README; every assignment of every generated formula is compared by variable NAME. Sampling, not proof: bounded by <= 16 names and depth <= 7 for the truth-table oracle; wide texts are bounded by diagram size, not by the number of names.",
          "trusts the harness's reference front-end (rlex/rparse/rsem, unit-tested on README identities and the repo's *_is_true files) and the regex crate's \\w/\\d classes"),
  "C02": ("bounded-exhaustive (all functions of <= 4 variables x 6 construction routes x id maps) + random operation histories; oracle = independently built plain ROBDD + wide cases (functions over up to 257 / 857 variables, ids up to the top of usize) differentially against the harness's own node-based reference ROBDD package (canonical shape, ==, hash) + constructed equal-hash sub-diagrams",
@@ -15,7 +15,7 @@ PROPS = {
  "C04": ("bounded-exhaustive (all 3-var / 4-var functions x all short variable lists) + random; oracle = or/and of cofactors on truth tables; metamorphic list permutations + wide cases (functions over up to 257 / 857 variables, ids up to the top of usize) differentially against the harness's own node-based reference ROBDD package (lists of up to several hundred variables) + padded formula texts with quantifiers on variables beyond id 64 / 128 / 256",
          "Exhaustive over functions and variable lists within the bound (empty, repeated, absent, above/inside/below the support), plus the same through the formula language.",
          "truth-table quantifier oracle is harness code"),
- "C05": ("bounded-exhaustive (lists of <= 3 operands from the 16 two-variable functions x all bounds incl. i64 extremes x all forms) + random lists; oracle = arithmetic count per assignment + wide cases (functions over up to 257 / 857 variables, ids up to the top of usize) differentially against the harness's own node-based reference ROBDD package (lists of up to 13 / 16 operands, bounds incl. i64::MIN / MAX; text lists of 14..23 literals)",
+ "C05": ("bounded-exhaustive (lists of <= 3 operands from the 16 two-variable functions x all bounds incl. i64 extremes x all forms) + random lists; oracle = arithmetic count per assignment + wide cases (functions over up to 257 / 857 variables, ids up to the top of usize) differentially against the harness's own node-based reference ROBDD package (lists of up to 13 / 16 operands, bounds incl. i64::MIN / MAX; text lists of 14..22 literals)",
          "All five comparison kinds, constant and list right-hand sides, API and language level, negative / oversized / huge constants.",
          "API bounds cover i64::MIN .. i64::MAX since defect F12 (overflow near i64::MIN) was repaired"),
  "C06": ("generated monotone fixed-point bodies (polarity-disciplined tape decoder + constructed multi-step chains) vs Knaster-Tarski enumeration of ALL candidate functions; alpha-renaming metamorphic check; bodies reaching the bound name through a definition vs the inlined text; model-based fp(a,t); counter-reachability fixed points needing up to 2^9+1 (thorough 2^11+1) applications and padded wide formulas vs the reference semantics on reference diagrams",
